@@ -165,8 +165,11 @@ def line_of(n, default=0):
 def assign_lines(fn):
     """Fill missing line numbers (clang omits `line` when unchanged)."""
     cur = [line_of(fn, 0)]
+    order = [0]
 
     def rec(n):
+        order[0] += 1
+        n["_ord"] = order[0]
         loc = n.get("range", {}).get("begin", {}) if n.get("range") else {}
         ln = loc.get("line") or (loc.get("expansionLoc") or {}).get("line") \
             or (loc.get("spellingLoc") or {}).get("line")
